@@ -138,6 +138,35 @@ def plan(prop, tier):
         return fams
     if prop == "C06":
         return pipeline_plan(tier)
+    if prop in ("C18", "C19"):
+        def thr_cfg(g, fam, thr):
+            return scen.with_bounds(g, fam, passive=True, burst=False, maxData=3, maxTop=1, maxPull=0, thr=thr)
+
+        def progs(pids, data, ends):
+            return [{"pid": p, "data": d, "end": e} for p, d, e in zip(pids, data, ends)]
+        fams = []
+        if prop == "C18":
+            for kind in ("merge", "combine"):
+                g2 = scen.nary(kind, 2, mode="push")
+                g3 = scen.nary(kind, 3, mode="push")
+                fams.append((f"thr_{kind}2", thr_cfg(g2, "thr_" + kind, progs([1, 2], [2, 2], ["T", "T"])), None))
+                fams.append((f"thr_{kind}2_fail", thr_cfg(g2, "thr_" + kind, progs([1, 2], [2, 1], ["T", "E"])), None))
+                fams.append((f"thr_{kind}3", thr_cfg(g3, "thr_" + kind, progs([1, 2, 3], [1, 1, 1] if q else [2, 1, 1],
+                                                                               ["T", "T", "T"])), None))
+                if not q:
+                    fams.append((f"thr_{kind}3_fail", thr_cfg(g3, "thr_" + kind, progs([1, 2, 3], [1, 1, 1], ["T", "E", "T"])), None))
+        else:
+            for n in (1, 2) if q else (1, 2, 3):
+                g = scen.unary("take", mode="push", n=n)
+                fams.append((f"thr_take{n}_2t", thr_cfg(g, "thr_take", progs([1, 1], [2, 2], ["none", "none"])), None))
+                fams.append((f"thr_take{n}_3t", thr_cfg(g, "thr_take", progs([1, 1, 1], [1, 1, 1] if q else [2, 1, 1],
+                                                                            ["none", "none", "none"])), None))
+                # take behind merge! of two members delivering from two threads
+                nodes = [scen.puppet(1, 1, "push"), scen.puppet(2, 2, "push"), {"id": 3, "kind": "merge", "ups": [1, 2]},
+                         {"id": 4, "kind": "take", "n": n, "ups": [3]}]
+                fams.append((f"thr_take{n}_merge", thr_cfg({"nodes": nodes, "root": 4}, "thr_take_merge",
+                                                          progs([1, 2], [2, 2], ["T", "T"])), None))
+        return fams
     if prop == "C20":
         # every message-sending site of every operator: all sequential families (small ones in the quick
         # tier), sources, interval, pipelines
